@@ -37,7 +37,7 @@ def install(ctx):
 def cases(ctx):
     rng = ctx.rng
     for i in range(ctx.n(420, 2200)):
-        pos, neg, kind = gen.scores(rng, min_pos=1, min_neg=1, maxn=40)
+        pos, neg, kind = gen.scores(rng, min_pos=1, min_neg=1, maxn=40, big=bool(ctx.tier == "thorough" and rng.random() < 0.08))
         ep, en = gen.easy(rng)
         sc, ec = gen.cfg(rng)
         yield {"pos": pos, "neg": neg, "ep": ep, "en": en, "sc": sc, "ec": ec, "kind": kind,
